@@ -184,7 +184,8 @@ pub fn check(c: &Case) -> Outcome {
         tolscale = tolscale.max(crate::props::c01::radau_internal_tolscale(&rv, &av, &vec![ymax; n]));
     }
     let nacc = plain.naccpt.max(1) as f64;
-    let acc_bound = crate::props::c01::C_BOUND * prob.kappa() * nacc * tolscale + 64.0 * f64::EPSILON * (1.0 + ymax) * nacc.sqrt() + lmax * 8.0 * ulp(sp.x0.abs().max(sp.xend.abs()));
+    // (the time-rounding floor is per step, as in C01: every step's length is rounded to the spacing of the time axis)
+    let acc_bound = crate::props::c01::C_BOUND * prob.kappa() * nacc * tolscale + 64.0 * f64::EPSILON * (1.0 + ymax) * nacc.sqrt() + lmax * 8.0 * ulp(sp.x0.abs().max(sp.xend.abs())) * nacc;
     let mut near_grid = 0usize;
     let mut dups = 0usize;
     for (i, t) in got_t.iter().enumerate() {
